@@ -432,7 +432,7 @@ STRUCTS = {
 }
 
 
-def _setup20(env, N, cap, struct, shapes, lab):
+def _setup20(env, N, cap, struct, shapes, lab, alpha_max=1 << 10):
     edges = STRUCTS[struct]
     fx = {}
     for i, sh in enumerate(shapes):
@@ -459,7 +459,7 @@ def _setup20(env, N, cap, struct, shapes, lab):
             L = y.ekey[i][j]
             if lab == 'alpha':
                 st.assume(L.kind == G.ALPHA)
-                st.assume(z3.ULT(L.n, 1 << 10))
+                st.assume(z3.ULT(L.n, alpha_max))
             elif lab.startswith('greek'):
                 k = int(lab[5])
                 lo, hi = {1: (0x21, 0x7F), 2: (0x80, 0x7FF), 3: (0x800, 0xFFFF), 4: (0x10000, 0x10FFFF)}[k]
@@ -513,8 +513,8 @@ def _multiset_eq(c, cells, found, exp, lab):
     return z3.And(*cs)
 
 
-def ob_text20(env, N, cap, struct, shapes, lab, which, start=0):
-    c, st, edges = _setup20(env, N, cap, struct, shapes, lab)
+def ob_text20(env, N, cap, struct, shapes, lab, which, start=0, alpha_max=1 << 10):
+    c, st, edges = _setup20(env, N, cap, struct, shapes, lab, alpha_max)
     w, y, vm = c.w, c.y, c.vm
     out = w.scratch(st, 24, 'out.string')
     call = {'op': which, 'v': start} if which != 'debug' else {'op': 'debug'}
@@ -568,6 +568,8 @@ def ob_text20(env, N, cap, struct, shapes, lab, which, start=0):
             lines = sk.split('\n')
             pos = 0
             head_ok = bool(lines) and lines[0] == L1('ν%d' % start)
+            if len(lines) >= 2 and lines[-1] == '':
+                lines = lines[:-1]          # "nu<v>\n" + no edge lines: the text of a vertex without edges ends with the separator
             for li, line in enumerate(lines):
                 if li > 0:
                     m = re.match(r'^( *)\.(.*) ' + ARROW + ' ' + NU + r'(\d+)(' + ELL + r')?$', line)
@@ -663,6 +665,8 @@ def judge_text20(job, lines, crashed, stderr=''):
             todo += [to for l, to in vs[v]['edges']]
         want = sorted(e for v in reach for e in edges_of(v))
         ls = text.split('\n')
+        if len(ls) >= 2 and ls[-1] == '':
+            ls = ls[:-1]
         got = []
         ok = bool(ls) and ls[0] == L1('ν%d' % start)
         for line in ls[1:]:
